@@ -2,7 +2,7 @@
 ;; needs-type []primitives.MemberWeight
 ;; needs-type []interfaces.CommitteeMember
 ;; needs-type []primitives.MemberId
-;; provides nn SumA SumMA SWP InIds MemPred SameSeq
+;; provides nn SumA SumMA SWP InIds MemPred SameSeq Snoc
 (define-fun nn ((x Int)) Int (ite (< x 0) 0 x))
 (define-fun-rec SumA ((a (Array Int Int)) (n Int)) Int
   (ite (<= n 0) 0 (+ (SumA a (- n 1)) (nn (select a (- n 1))))))
@@ -34,6 +34,9 @@
 ; two id lists with the same length and, position by position, the same content
 (define-fun SameSeq ((x Slice_BS) (y Slice_BS)) Bool (and (= (len_Slice_BS x) (len_Slice_BS y))
   (forall ((k Int)) (=> (and (<= 0 k) (< k (len_Slice_BS x))) (= (bs_c (select (el_Slice_BS x) k)) (bs_c (select (el_Slice_BS y) k)))))))
+; the id list p followed by the id x
+;; spec Snoc (Slice_BS BS) Slice_BS : []primitives.MemberId
+(define-fun Snoc ((p Slice_BS) (x BS)) Slice_BS (mk_Slice_BS false (+ (len_Slice_BS p) 1) (store (el_Slice_BS p) (len_Slice_BS p) x)))
 ;; section quorum_axioms
 ;; provides SumA SumMA SWP
 ; lemma-axioms: each is proved by induction in specs/lemmas/quorum_sums.smt2 (re-checked on every C06 run)
@@ -91,6 +94,8 @@
 (declare-fun CMsgs (Iface Int Int Int Str) Slice_Int)
 ;; spec PPAt (Iface Int Int) Int : *interfaces.PreprepareMessage
 (declare-fun PPAt (Iface Int Int) Int)
+;; spec PPSender (Iface Int Int) BS : primitives.MemberId
+(declare-fun PPSender (Iface Int Int) BS)
 ;; spec VCMsgs (Iface Int Int Int) Slice_Int : []*interfaces.ViewChangeMessage
 (declare-fun VCMsgs (Iface Int Int Int) Slice_Int)
 ;; section quorum_axioms2
